@@ -130,6 +130,48 @@ inline int draw_nt(sim::rng &r, int lo = 1, int hi = 32) {
     return lo;
 }
 
+// ---- seeded variation of the component parameters (swarm style: correctness must not depend on one configuration) ----------
+// The plan carries a switch "vp" and a seed "vp_seed"; the values are derived from the seed and the component names, only keys the
+// chosen component understands are set.  allow_random_vector: power iterations start from a thread-seeded random vector and
+// accumulate in an unordered critical section - callers with bitwise oracles across constructions at nt > 1 pass false.
+inline void draw_vary_params(sim::rng &r, hz::Plan &p, double prob = 0.5) { p.set("vp", r.chance(prob) ? 1 : 0, 0); p.set("vp_seed", (long)(r.next() >> 20), 0); }
+template <class PTree>
+inline std::string apply_vary_params(const hz::Plan &p, PTree &prm, const std::string &cpre, const std::string &coarsening, const std::string &rpre, const std::string &relax,
+                                     const std::string &spre, const std::string &solver, bool allow_random_vector) {
+    if (!p.get("vp", 0)) return "";
+    sim::rng r((uint64_t)p.get("vp_seed", 0), "vary");
+    std::string desc;
+    auto put = [&](const std::string &key, double v) { prm.put(key, v); char b[96]; snprintf(b, sizeof b, "%s=%g ", key.c_str(), v); desc += b; };
+    auto puti = [&](const std::string &key, long v) { prm.put(key, v); char b[96]; snprintf(b, sizeof b, "%s=%ld ", key.c_str(), v); desc += b; };
+    auto putb = [&](const std::string &key, bool v) { prm.put(key, v); char b[96]; snprintf(b, sizeof b, "%s=%d ", key.c_str(), (int)v); desc += b; };
+    auto pick = [&](std::initializer_list<double> l) { size_t k = (size_t)r.below(l.size()); return *(l.begin() + k); };
+    if (!relax.empty()) {
+        if (relax == "ilut") { if (r.chance(0.7)) put(rpre + "p", pick({1, 1.25, 1.5, 2, 2.5, 3.75})); if (r.chance(0.5)) put(rpre + "tau", pick({0, 1e-3, 1e-2, 0.1})); }
+        if (relax == "iluk") { if (r.chance(0.7)) puti(rpre + "k", (long)r.range(0, 3)); }
+        if (relax == "ilup") { if (r.chance(0.7)) puti(rpre + "k", (long)r.range(0, 2)); }
+        if ((relax == "ilu0" || relax == "iluk" || relax == "ilup" || relax == "ilut" || relax == "damped_jacobi") && r.chance(0.4)) put(rpre + "damping", pick({1, 0.72, 0.5, 0.9}));
+        if ((relax == "ilu0" || relax == "iluk" || relax == "ilup" || relax == "ilut") && r.chance(0.3)) putb(rpre + "solve.serial", r.chance(0.5));
+        if (relax == "gauss_seidel" && r.chance(0.3)) putb(rpre + "serial", r.chance(0.5));
+        if (relax == "chebyshev") { if (r.chance(0.6)) puti(rpre + "degree", (long)r.range(1, 6)); if (r.chance(0.4)) put(rpre + "lower", pick({1.0 / 30, 0.1, 0.25})); if (r.chance(0.3)) put(rpre + "higher", pick({1, 1.1}));
+            if (r.chance(0.4)) putb(rpre + "scale", r.chance(0.5)); if (allow_random_vector && r.chance(0.3)) puti(rpre + "power_iters", (long)r.range(1, 6)); }
+    }
+    if (!coarsening.empty()) {
+        if (coarsening == "ruge_stuben") { if (r.chance(0.5)) put(cpre + "eps_strong", pick({0.1, 0.25, 0.5})); if (r.chance(0.4)) putb(cpre + "do_trunc", r.chance(0.5)); if (r.chance(0.3)) put(cpre + "eps_trunc", pick({0.1, 0.2, 0.4})); }
+        else { if (r.chance(0.5)) put(cpre + "aggr.eps_strong", pick({0, 0.04, 0.08, 0.2, 0.5})); }
+        if (coarsening == "aggregation" && r.chance(0.5)) put(cpre + "over_interp", pick({1, 1.5, 2}));
+        if (coarsening == "smoothed_aggregation") { if (r.chance(0.4)) put(cpre + "relax", pick({0.5, 1, 1.5})); if (allow_random_vector && r.chance(0.25)) { putb(cpre + "estimate_spectral_radius", true); puti(cpre + "power_iters", (long)r.range(0, 5)); } }
+    }
+    if (!solver.empty()) {
+        if (solver == "bicgstabl") { if (r.chance(0.6)) puti(spre + "L", (long)r.range(1, 4)); if (r.chance(0.3)) put(spre + "delta", pick({0, 1e-2, 0.5})); if (r.chance(0.3)) putb(spre + "convex", r.chance(0.5)); }
+        if ((solver == "gmres" || solver == "fgmres" || solver == "lgmres") && r.chance(0.6)) puti(spre + "M", (long)r.range(2, 12));
+        if (solver == "lgmres" && r.chance(0.5)) puti(spre + "K", (long)r.range(1, 4));
+        if (solver == "idrs") { if (r.chance(0.6)) puti(spre + "s", (long)r.range(1, 6)); if (r.chance(0.3)) put(spre + "omega", pick({0, 0.7, 0.9})); if (r.chance(0.3)) putb(spre + "smoothing", r.chance(0.5)); if (r.chance(0.3)) putb(spre + "replacement", r.chance(0.5)); }
+        if (solver == "richardson" && r.chance(0.4)) put(spre + "damping", pick({1, 0.8, 0.5}));
+        if (solver != "preonly" && r.chance(0.2)) putb(spre + "ns_search", r.chance(0.5));
+    }
+    return desc;
+}
+
 // ---- recording coarsening policy (template-template seam of amgcl::amg) ------------------
 struct LevelLog {
     std::shared_ptr<void> A, P, R, Ac;       // type-erased shared_ptr<build_matrix>
